@@ -515,3 +515,9 @@ H("c13_epoch_joiner_head", "c13_derive.rs", ["C13"], "quick", unwind=64, mem="M"
 H("c13_epoch_joiner_confirm_init", "c13_derive.rs", ["C13"], "thorough", unwind=64, mem="H", timeout_s=1200, stubs=ZSTUBS + _UF + _STC,
   what=_EP + "joiner side: confirmation key and init secret are DeriveSecret(epoch_secret, 'confirm' | 'init')",
   symbolic="joiner, psk secrets; group-context fields", bounds="Nh = 2")
+
+for t, tier, mem in [("byte_vec", "quick", "L"), ("vec_u8", "quick", "L"), ("vec_u16", "quick", "L"), ("string", "thorough", "M")]:
+    C12("c12_alloc_bound_" + t, tier, "decoding any byte string never requests more than 8 x input + 256 bytes in one allocation (no allocation driven by an "
+        "unchecked length field): Vec::with_capacity requests recorded by a stub under the model checker, a tracking global allocator in the native replay",
+        "5 symbolic bytes, symbolic length", "B = 5", 8, mem=mem,
+        stubs=["stub: alloc::vec::Vec::with_capacity -> records the requested size, allocates lazily"])
